@@ -4,6 +4,7 @@ import WindVerif.Proofs.PoolLiveAux0
 import WindVerif.Proofs.PoolLiveAux9
 import WindVerif.Proofs.PoolLiveAux13
 import WindVerif.Proofs.PoolLiveMid
+import WindVerif.Proofs.PoolExited
 /-! Liveness of the pool model (C02): no deadlock and termination, under every interleaving.
 
 The development is in `PoolLiveAux0` … `PoolLiveAux13`: the schedule of the former D19 — D19 repaired: it now runs on to
@@ -121,7 +122,10 @@ theorem exit_skip_all_gone (cfg : Cfg) (s s' : St) (h : Reach cfg s) (i : Nat) (
         cases hg : gone w.pc
         · exact absurd (hL.listed w hw hg) hin
         · rfl
-      cases hp : w.pc <;> rw [hp] at hg <;> first | (left; rfl) | (right; exact ⟨rfl, hin, by rw [← hc]; exact (hL.wk w hw).ending hp⟩) | cases hg
+      -- not listed: with `join_timeout=None` the replace thread's join has waited for its exit
+      cases hjt : cfg.joinTimeout
+      · left; exact unlisted_exited' cfg hjt s h w hw hin
+      · cases hp : w.pc <;> rw [hp] at hg <;> first | (left; rfl) | (right; exact ⟨rfl, hin, rfl⟩) | cases hg
   · cases hs
 
 /-- … in a pool WITHOUT a join timeout (`join_timeout=None`): every worker ever created has exited.  (With a finite join
